@@ -84,6 +84,7 @@ func (st *programState) runBalancesQuery() error {
 		return nil
 	}
 
+	verifEmit(st.ctx, "fetch_pre", filteredQuery)
 	balances, err := st.Store.GetBalances(st.ctx, filteredQuery)
 	if err != nil {
 		return err
@@ -92,6 +93,7 @@ func (st *programState) runBalancesQuery() error {
 	st.CurrentBalanceQuery = BalanceQuery{}
 
 	st.CachedBalances = balances
+	verifEmit(st.ctx, "cache", balances, st.CachedBalances)
 	return nil
 }
 
